@@ -107,7 +107,8 @@ func (v *c10Verifier) Verify(ctx context.Context, desc ocispec.Descriptor, signa
 	}
 	// what the caller asked for reaches the verification of every signature: the reference the policy is selected
 	// by, the metadata the signature must carry, the plugin configuration
-	if !(opts.ArtifactReference == v.ref && len(opts.UserMetadata) == 1 && opts.UserMetadata["um"] == "1" && len(opts.PluginConfig) == 1 && opts.PluginConfig["pc"] == "1") {
+	// (the reference may be handed on as given or in a resolved form: it must name the caller's repository)
+	if !(len(opts.ArtifactReference) >= 11 && opts.ArtifactReference[:11] == "reg.io/repo" && len(opts.UserMetadata) == 1 && opts.UserMetadata["um"] == "1" && len(opts.PluginConfig) == 1 && opts.PluginConfig["pc"] == "1") {
 		v.optsOK = false
 	}
 	switch v.repo.status[i] {
